@@ -379,15 +379,23 @@ impl PayloadHistory {
         // Iterate backwards over the deltas. Skip over those older than we
         // need.
         let mut iter = self.deltas.iter().rev();
+        let mut found = false;
         for delta in &mut iter {
             // delta.serial() is the target serial of the delta, serial is
             // the target serial the caller has. So we can skip over anything
             // smaller.
             match delta.serial().partial_cmp(&serial) {
                 Some(cmp::Ordering::Greater) => return None,
-                Some(cmp::Ordering::Equal) => break,
+                Some(cmp::Ordering::Equal) => {
+                    found = true;
+                    break
+                }
                 _ => continue
             }
+        }
+        if !found {
+            // We never issued this serial (all comparisons were undefined).
+            return None
         }
 
         let mut res = match iter.next() {
